@@ -753,6 +753,12 @@ def r17(ctx, rep):
     rep.borrowed(C03.r3, ctx, "C07.R23", "the ORDER BY of an outer query names columns the CTE returns: sort keys are added to a CTE's SELECT unless that column is selected", only=r"^cte-projection")
 
 
+def r24(ctx, rep):
+    # `-{l}` without an operand strength prints the negation of a negation as `--x`: a line comment, the statement is cut off there
+    import C02
+    rep.borrowed(C02.r4, ctx, "C07.R24", "the operand of the unary minus template is parenthesised when it is itself a negation (`- -x`, never `--x`)", only=r"^neg:")
+
+
 def r19(ctx, rep):
     import C04
     rep.borrowed(C04.r9, ctx, "C07.R19", "a RANGE frame with offsets needs an ORDER BY to be valid SQL")
@@ -900,5 +906,5 @@ def r22(ctx, rep):
 
 
 def run(ctx, rep):
-    for r in (r1, r2, r3, r4, r5, r6, r7, r8, r9, r10, r11, r12, r13, r14, r15, r16, r17, r19, r20, r21, r22):
+    for r in (r1, r2, r3, r4, r5, r6, r7, r8, r9, r10, r11, r12, r13, r14, r15, r16, r17, r19, r20, r21, r22, r24):
         rep.guard(r, ctx)
